@@ -1362,7 +1362,7 @@ Section Core.
     kwok kw -> match pos with Some v => okV v | None => True end ->
     SEP (construct ct rec c pos kw) (freshv b).
   Proof.
-    intros Hkw Hpos. unfold construct. sbi k Hk.
+    intros Hkw Hpos. unfold construct. sbi k Hk. rewrite (wf_owner c k Hk).
     eapply sep_bind with (Q := kwok).
     { destruct pos as [v|]; [|now sret]. destruct (c_key k) as [ka|]; [|apply sep_fail].
       destruct (kw_has ka kw); [apply sep_fail|]. sret.
